@@ -31,6 +31,7 @@ def realX (emb : Float → ℝ) : XOps ℝ where
   atan2 y x := Complex.arg ⟨x, y⟩
   abs x := |x|
   floor x := (⌊x⌋ : ℝ)
+  floorInt x := ⌊x⌋
   nextUp := id
   isFinite _ := true
 
